@@ -323,7 +323,8 @@ func (p *printer) subshell(x *ast.Subshell) {
 	p.w.WriteByte(')')
 }
 
-// leadingSubshell reports whether c starts with a subshell.
+// leadingSubshell reports whether c starts with a subshell or an
+// arithmetic evaluation.
 func (p *printer) leadingSubshell(c ast.Command) bool {
 	switch c := c.(type) {
 	case ast.List:
@@ -333,8 +334,10 @@ func (p *printer) leadingSubshell(c ast.Command) bool {
 	case *ast.Pipeline:
 		return c.Bang.IsZero() && p.leadingSubshell(c.Cmd)
 	case *ast.Cmd:
-		_, ok := c.Expr.(*ast.Subshell)
-		return ok
+		switch c.Expr.(type) {
+		case *ast.Subshell, *ast.ArithEval:
+			return true
+		}
 	}
 	return false
 }
